@@ -27,6 +27,7 @@ type c08Batch struct {
 	churn   int    // 1 = delete the grandchild GK (edge K1>GK), 2 = restore it
 	parent  string // edge batches: the parent of the edge written ("" = the instance root)
 	refused bool   // a batch the store must refuse (NaN value): nobody may be told of it
+	repeat  bool   // the very same points (values, times, origin: byte for byte) as the batch before, written to another node of the subtree
 	dupTie  bool   // the batch carries one identity twice with the same timestamp (the later point of the batch is the one that counts)
 }
 
@@ -37,7 +38,7 @@ func c08Alphabet() []c08Batch {
 			o, tg := origin, target
 			out = append(out, c08Batch{o, tg, false, func(m float64) data.Points {
 				return data.Points{{Type: "value", Value: m, Origin: o}}
-			}, fmt.Sprintf("value on %s by %q", tg, o), 0, "", false, false})
+			}, fmt.Sprintf("value on %s by %q", tg, o), 0, "", false, false, false})
 		}
 	}
 	// two-point batches and other fields, by a foreign author and by the client itself
@@ -45,14 +46,14 @@ func c08Alphabet() []c08Batch {
 		o := origin
 		out = append(out, c08Batch{o, "N1", false, func(m float64) data.Points {
 			return data.Points{{Type: "description", Text: fmt.Sprintf("d%v", m), Origin: o}, {Type: "arr", Key: "1", Value: m, Origin: o}}
-		}, fmt.Sprintf("description+arr[1] on N1 by %q", o), 0, "", false, false})
+		}, fmt.Sprintf("description+arr[1] on N1 by %q", o), 0, "", false, false, false})
 		out = append(out, c08Batch{o, "K1", false, func(m float64) data.Points {
 			return data.Points{{Type: "description", Text: fmt.Sprintf("k%v", m), Origin: o}, {Type: "value", Value: m, Origin: o}}
-		}, fmt.Sprintf("description+value on K1 by %q", o), 0, "", false, false})
+		}, fmt.Sprintf("description+value on K1 by %q", o), 0, "", false, false, false})
 	}
 	out = append(out, c08Batch{"other", "N1", true, func(m float64) data.Points {
 		return data.Points{{Type: "role", Text: fmt.Sprintf("r%v", m), Origin: "other"}}
-	}, `edge point role on N1 by "other"`, 0, "", false, false})
+	}, `edge point role on N1 by "other"`, 0, "", false, false, false})
 	// batches the store refuses (a NaN value next to a regular point): a refused write is not a change
 	for _, tg := range []string{"N1", "K1"} {
 		tg := tg
@@ -67,6 +68,8 @@ func c08Alphabet() []c08Batch {
 			return data.Points{{Type: "value", Value: m, Origin: "other"}, {Type: "value", Value: m + 0.5, Origin: "other"}}
 		}, name: fmt.Sprintf("value twice with one timestamp on %s by \"other\"", tg)})
 	}
+	// the batch before, byte for byte, on another node of the client's subtree (two sensors report the same reading at the same instant)
+	out = append(out, c08Batch{repeat: true, name: "the same points again on another node of the subtree"})
 	// an edge point (not a tombstone) on the edge between the client's node and its child, and one level further down
 	out = append(out, c08Batch{origin: "other", target: "K1", edge: true, parent: "N1", pts: func(m float64) data.Points {
 		return data.Points{{Type: "role", Text: fmt.Sprintf("r%v", m), Origin: "other"}}
@@ -181,6 +184,7 @@ func c08Body(t *testing.T, depth int, order bool, churn ...bool) mc.Body {
 			nEvents := len(g.reg.events)
 			var hist []c08Batch
 			var markers []float64
+			var prevPts data.Points
 			classified := !isChurn
 			gkLive := true
 			lastTimes := map[string]time.Time{} // identity -> time of its newest point so far
@@ -195,13 +199,31 @@ func c08Body(t *testing.T, depth int, order bool, churn ...bool) mc.Body {
 					unclassified[d] = true
 				}
 				marker := float64(100 + d)
-				pts := b.pts(marker)
+				var pts data.Points
+				if b.repeat {
+					if d == 0 || hist[d-1].churn != 0 || hist[d-1].refused || hist[d-1].edge || hist[d-1].repeat || hist[d-1].target == "S" || hist[d-1].target == "GK" {
+						out = mc.Outcome{Trivial: true, Obs: "inapplicable"}
+						return
+					}
+					prev := hist[d-1]
+					b = prev
+					b.repeat = true
+					b.target = map[string]string{"N1": "K1", "K1": "N1"}[prev.target]
+					b.name = fmt.Sprintf("the points of the batch before, byte for byte, on %s", b.target)
+					marker = markers[d-1]
+					pts = append(data.Points{}, prevPts...)
+				} else {
+					pts = b.pts(marker)
+				}
 				early := order && x.Deviate(2, "next batch before quiescence") == 1
 				// timestamps are non-decreasing per identity: the batch may carry exactly the time of the batch before it
 				// (a tie: the store overwrites on ties, so the client must be told and both must agree afterwards)
 				sameTime := !isChurn && d > 0 && x.Choose(2, "timestamp: later than / equal to the newest point of the same identity") == 1
 				err := g.s.do(func() error {
 					for i := range pts {
+						if b.repeat {
+							break // (the times of the batch before are kept)
+						}
 						id := fmt.Sprintf("%s|%v|%s|%s|%s", b.target, b.edge, b.parent, pts[i].Type, pts[i].Key)
 						if t0, ok := lastTimes[id]; sameTime && ok {
 							pts[i].Time = t0 // exactly the time of the newest point of this identity
@@ -225,6 +247,7 @@ func c08Body(t *testing.T, depth int, order bool, churn ...bool) mc.Body {
 					}
 					return client.SendNodePoints(g.inst.Nc, b.target, pts, true)
 				}, early)
+				prevPts = append(data.Points{}, pts...)
 				if b.refused {
 					if err == nil {
 						out = mc.Outcome{Violation: "a batch with a NaN value was accepted (C05)", Key: "nan-accepted"}
@@ -284,7 +307,9 @@ func c08Body(t *testing.T, depth int, order bool, churn ...bool) mc.Body {
 				return -1
 			}
 			told := map[float64]int{}
+			toldAt := map[string]int{} // "marker@node"
 			var toldOrder []float64
+			var toldAtOrder []string
 			restarted := false
 			for _, e := range events {
 				switch e.kind {
@@ -292,9 +317,19 @@ func c08Body(t *testing.T, depth int, order bool, churn ...bool) mc.Body {
 					m := markerOf(e)
 					told[m]++
 					toldOrder = append(toldOrder, m)
-					// content check
+					toldAt[fmt.Sprintf("%v@%s", m, e.node)]++
+					toldAtOrder = append(toldAtOrder, fmt.Sprintf("%v@%s", m, e.node))
+					// content check (two batches share a marker when the second repeats the first on another node: the
+					// event is compared with the batch of that marker written to the node the event names, if any)
 					for i, b := range hist {
 						if markers[i] == m {
+							shared := false
+							for j := range hist {
+								shared = shared || (j != i && markers[j] == m)
+							}
+							if shared && e.node != b.target {
+								continue
+							}
 							want := b.pts(m)
 							if len(want) != len(e.pts) || e.node != b.target {
 								out = mc.Outcome{Violation: fmt.Sprintf("batch %q delivered as node=%s points=[%s]", b.name, e.node, ptsString(e.pts)), Key: "told-different-content"}
@@ -316,31 +351,34 @@ func c08Body(t *testing.T, depth int, order bool, churn ...bool) mc.Body {
 				out = mc.Outcome{Violation: "client was restarted by plain point updates: " + strings.Join(x.History(), "; "), Key: "unexpected-restart"}
 				return
 			}
-			var mustOrder []float64
+			var mustOrder []string
 			for i, b := range hist {
 				m := markers[i]
 				if b.churn != 0 || unclassified[i] {
 					continue
 				}
+				at := fmt.Sprintf("%v@%s", m, b.target)
 				if b.mustTell() {
-					mustOrder = append(mustOrder, m)
-					if told[m] != 1 {
-						out = mc.Outcome{Violation: fmt.Sprintf("foreign change %q (history: %s) was told %d times to the client", b.name, strings.Join(x.History(), "; "), told[m]), Key: fmt.Sprintf("foreign-change-not-told-once/target=%s", b.target)}
+					mustOrder = append(mustOrder, at)
+					if toldAt[at] != 1 {
+						out = mc.Outcome{Violation: fmt.Sprintf("foreign change %q (history: %s) was told %d times to the client", b.name, strings.Join(x.History(), "; "), toldAt[at]), Key: fmt.Sprintf("foreign-change-not-told-once/target=%s", b.target)}
 						return
 					}
 				}
-				if b.mustNotTell() && told[m] > 0 {
+				if b.mustNotTell() && toldAt[at] > 0 {
 					out = mc.Outcome{Violation: fmt.Sprintf("the client was told of its own change %q", b.name), Key: "own-change-echoed"}
 					return
 				}
 			}
 			// order of acceptance
-			var seenMust []float64
-			for _, m := range toldOrder {
-				for _, mm := range mustOrder {
-					if m == mm {
-						seenMust = append(seenMust, m)
-					}
+			isMust := map[string]bool{}
+			for _, at := range mustOrder {
+				isMust[at] = true
+			}
+			var seenMust []string
+			for _, at := range toldAtOrder {
+				if isMust[at] {
+					seenMust = append(seenMust, at)
 				}
 			}
 			if fmt.Sprint(seenMust) != fmt.Sprint(mustOrder) {
